@@ -658,6 +658,7 @@ pub struct C06State {
     pub charged_checks: u64,
     pub charged_zero_borrow_limit: u64,
     pub prog_fee_checks: u64,
+    pub conservation_checks: u64,
     pub foreign_group_cranks: u64,
     pub charged_skipped_small: u64,
 }
@@ -856,6 +857,32 @@ pub fn c06_step(st: &mut C06State, pre: &StoreSnap, post: &StoreSnap, step: &Ste
                     if b1.f_prog > b0.f_prog {
                         out.push(finding("accrual:program-fee-while-disabled", format!("op#{} {}: bank {} booked {} of program fees although its group has program fees disabled", step.index, step.op.name(), k, q_str(&(&b1.f_prog - &b0.f_prog)))));
                     }
+                }
+            }
+        }
+    }
+    // conservation over a pure accrual (the crank changes nothing else; the vault does not move): the increase in total debt
+    // equals the increase in total deposits plus the fees booked. Two-sided, with an allowance scaled by the magnitudes that
+    // flow through the ~10 truncating operations (c06a.rs derives the sharp form for the pure function: every term is
+    // ulp x (shares) x (share value) x (1 + (rate + 1) x dt / year), rate <= 10 + fees; 64 of those are granted here).
+    if let (Op::Accrue { .. }, Some(bi)) = (&step.op, step.bank) {
+        let k = w.banks[bi].key;
+        if let (Some(b0), Some(b1)) = (pre.banks.get(&k), post.banks.get(&k)) {
+            if b0.last_update < post.now && (b1.asv != b0.asv || b1.lsv != b0.lsv || b1.fees() != b0.fees()) {
+                let d_l = b1.liabs() - b0.liabs();
+                let d_a = b1.assets() - b0.assets();
+                let d_f = b1.fees() - b0.fees();
+                let ty = q_int(post.now - b0.last_update) / q_int(31_536_000u64);
+                let mag = q_one() + &b0.a_shares + &b0.l_shares;
+                let sv = q_max(q_one(), q_max(q_max(b0.asv.clone(), b1.asv.clone()), q_max(b0.lsv.clone(), b1.lsv.clone())));
+                let allow = q_int(64) * ulp() * mag * sv * (q_one() + q_int(12) * ty);
+                let d = &d_l - &d_a - &d_f;
+                st.conservation_checks += 1;
+                if d.abs() > allow {
+                    out.push(finding(
+                        "accrual:conservation",
+                        format!("op#{} accrue: bank {}: total debt grew by {} but total deposits by {} and the fee buckets by {} (difference {}, allowance {}); deposit share value {} -> {}", step.index, k, q_str(&d_l), q_str(&d_a), q_str(&d_f), q_str(&d), q_str(&allow), q_str(&b0.asv), q_str(&b1.asv)),
+                    ));
                 }
             }
         }
